@@ -21,7 +21,7 @@ from .c07 import _site
 PROP = 'C12'
 LEVEL = 'exploration'
 BATCH = 200
-RUN_TIMEOUT = 5       # wall-clock watchdog ('never a hang'): an ordinary run takes milliseconds
+RUN_TIMEOUT = 5       # CPU-time watchdog ('never a hang'): an ordinary run takes milliseconds
 TIERS = {
     'quick': {'runs': 700000, 'budget': 35},
     'thorough': {'runs': 5_000_000, 'budget': 540},
